@@ -39,6 +39,7 @@ import torch
 
 from . import common, extract
 from .common import Ctx
+from .util_batch import same_values  # noqa: E402
 from .util_batch import (ALGEBRA, DIM, DT, GROUPS, LTYPES, MANIFOLD, Pools, all_shapes, decode_items, elem_tagged,
                          ltype_name, ltype_of, make_tagged, numel, parse_out, pp, py_broadcast, wl)
 
@@ -207,6 +208,10 @@ def ref_table(ctx, site, dtype):
         warnings.simplefilter("ignore")
         T = site_call(site, api, X, y)
     T = torch.Tensor.as_subclass(T, torch.Tensor).detach().reshape(K, K, -1)
+    if not bool(torch.isfinite(T).all()):      # pass 7 (38a): pool items are finite valid operands; a non-finite entry would also turn the
+        bad = (~torch.isfinite(T)).reshape(K, K, -1).any(-1).nonzero()[0].tolist()     # table's max-based tolerance into inf / NaN
+        ctx.fail({"kind": "table", "site": list(site), "dtype": dtype, "i": bad[0], "j": bad[1]},
+                 f"non-finite result: {site[0]}.{site[1]} of pool items ({bad[0]},{bad[1]}) = {px[bad[0]].tolist()} with {py[bad[1]].tolist()} is {T[bad[0], bad[1]].flatten()[:4].tolist()}")
     # item-by-item validation of sampled entries
     nval = K * K if (not ctx.quick and dtype == "float64") else 12
     tol = 256 * common.EPS[dtype]
@@ -834,6 +839,10 @@ def unary_table(ctx, lt, op, fn, dtype):
     with warnings.catch_warnings():
         warnings.simplefilter("ignore")
         T = _plain(fn(_lie(pool.clone(), lt))).detach()
+        if not bool(torch.isfinite(T).all()):          # pass 7 (38a)
+            i = int((~torch.isfinite(T)).reshape(T.shape[0], -1).any(-1).nonzero()[0])
+            ctx.fail({"kind": "utable", "lt": lt, "op": op, "dtype": dtype, "i": i},
+                     f"non-finite result: {lt}.{op} of the finite valid pool item {i} = {pool[i].tolist()} is {T[i].flatten()[:4].tolist()}")
         tol = 256 * common.EPS[dtype]
         for i in ctx.rng.sample(range(pool.shape[0]), 6 if ctx.quick else pool.shape[0]):
             r = _plain(fn(_lie(pool[i].clone(), lt)))
@@ -1161,13 +1170,89 @@ def regime_corpus(lt, dtype):
         k += 1
     T = torch.tensor(rows, dtype=torch.float64)
     pool = POOLS.get(lt, "float64")[:5]
+    tn, tr = tie_rows(lt, dtype)
+    names += tn
     names += [f"ordinary{j}" for j in range(pool.shape[0])]
-    T = torch.cat([T, pool], dim=0).to(DT[dtype]).contiguous()
+    T = torch.cat([T.to(DT[dtype])] + ([tr] if tn else []) + [pool.to(DT[dtype])], dim=0).contiguous()
     _CORPUS[key] = (names, T)
     return names, T
 
 
+def _euler_band_tie(dt):
+    """unit quaternion (0, y, 0, w) whose `t2 = 2 (w y - z x) / |q|^2`, evaluated with euler's own operations in dtype `dt`, EQUALS the
+    threshold `1 - 2e-4` as the comparison sees it (the python scalar rounded to `dt`) — found by walking over neighbouring floats"""
+    target = torch.tensor(1. - 2e-4, dtype=torch.float64).to(dt)
+    y0 = math.sin(math.asin(float(target)) / 2)
+    y = torch.tensor(y0, dtype=dt)
+    lo, hi = y.clone(), y.clone()
+    for _ in range(40000):
+        for c in (lo, hi):
+            w = torch.sqrt(1 - c * c)
+            zero = torch.zeros((), dtype=dt)
+            t2 = 2 * (w * c - zero * zero) / (zero * zero + c * c + zero * zero + w * w)
+            if bool(t2 == target):
+                return [0.0, float(c), 0.0, float(w)]
+        lo = torch.nextafter(lo, torch.tensor(0., dtype=dt))
+        hi = torch.nextafter(hi, torch.tensor(1., dtype=dt))
+    return None
+
+
+def tie_rows(lt, dtype):
+    """pass 7 (38c): EXACT ties of every floating comparison that selects a branch in the anchored code, built in the target dtype
+    from exactly representable data and reachable through the public constructors:
+      theta == eps            (so3 Exp, so3_Jl, so3_Jl_inv, Jr, rxso3_Ws)            phi = (eps, 0, 0): the norm of an axis vector is exact
+      theta == 0.05           (calcQ of se3 / sim3)                                   phi = (fl(0.05), 0, 0)
+      |sigma| == eps, 0       (rxso3_Ws four-way selection) x theta in {0, eps, big}  all nine combinations, both signs of sigma
+      |v| == eps, |w| == eps  (SO3_Log three-way selection)                           q = (eps,0,0,±1), (1,0,0,±eps), w == 0 is `tie-half-exact`
+      |t2| == 1 - 2e-4        (euler's lock band, default eps)                        q = (0, ±y, 0, w) found by `_euler_band_tie`
+      scale == 1 exactly and 1 ± eps with rotation identity / |v| == eps (RxSO3 / Sim3 Log: sigma = log s is 0 / ~eps)"""
+    dt = DT[dtype]
+    e = float(torch.finfo(dt).eps)
+    grp = lt in GROUPS
+    base = lt if grp else [g for g, a in ALGEBRA.items() if a == lt][0]
+    names, rows = [], []
+    tr = [0.25, -1.5, 2.0]
+    if grp:
+        rots = [("tie-|v|=eps", [e, 0., 0., 1.]), ("tie-|v|=eps-neg", [0., e, 0., -1.]), ("tie-|w|=eps", [1., 0., 0., e]), ("tie-|w|=eps-neg", [0., 0., 1., -e]),
+                ("tie-|v|=2eps", [0., 0., 2 * e, 1.])]
+        band = _euler_band_tie(dt)
+        if band is not None:
+            rots += [("tie-euler-band+", band), ("tie-euler-band-", [0.0, -band[1], 0.0, band[3]])]
+        for nm, q in rots:
+            for sn, sc in ((("", 1.0),) if base in ("SO3", "SE3") else (("", 1.0), (",s=1+eps", 1.0 + e), (",s=1-eps/2", 1.0 - e / 2))):
+                if sn and nm not in ("tie-|v|=eps", "tie-|w|=eps"):
+                    continue
+                names.append(nm + sn)
+                rows.append({"SO3": q, "SE3": tr + q, "RxSO3": q + [sc], "Sim3": tr + q + [sc]}[base])
+        if base in ("RxSO3", "Sim3"):
+            for sn, sc in (("tie-identity,s=1+eps", 1.0 + e), ("tie-identity,s=1-eps/2", 1.0 - e / 2)):
+                names.append(sn)
+                rows.append({"RxSO3": [0., 0., 0., 1., sc], "Sim3": tr + [0., 0., 0., 1., sc]}[base])
+    else:
+        c05 = float(torch.tensor(0.05, dtype=dt))
+        thetas = [("theta=eps", [e, 0., 0.]), ("theta=eps-y", [0., -e, 0.]), ("theta=2eps", [0., 0., 2 * e]), ("theta=eps/2", [e / 2, 0., 0.])]
+        if base in ("SE3", "Sim3"):
+            thetas += [("theta=0.05", [c05, 0., 0.]), ("theta=0.05-z", [0., 0., -c05])]
+        if base in ("SO3", "SE3"):
+            for nm, phi in thetas:
+                names.append("tie-" + nm)
+                rows.append({"SO3": phi, "SE3": tr + phi}[base])
+        else:
+            for tn_, phi in [("theta=0", [0., 0., 0.])] + thetas[:1] + thetas[4:5] + [("theta=0.5", [0., 0.5, 0.])]:
+                for sn, sg in (("sigma=0", 0.0), ("sigma=eps", e), ("sigma=-eps", -e), ("sigma=2eps", 2 * e), ("sigma=0.25", 0.25)):
+                    if sn in ("sigma=2eps", "sigma=0.25") and tn_ != "theta=eps":
+                        continue            # the strict sides of the sigma comparison: once, next to the theta tie
+                    names.append(f"tie-{sn},{tn_}")
+                    rows.append({"RxSO3": phi + [sg], "Sim3": tr + phi + [sg]}[base])
+    if not rows:
+        return [], None
+    R = torch.tensor(rows, dtype=torch.float64).to(dt)
+    return names, R
+
+
 _SINGLE = {}
+# (op, item[, partner]) for which a non-finite value IS the specified / unavoidable result on the unchanged tree — each with the reason
+NONFINITE_OK = set()
 
 
 def _close(a, b, dtype):
@@ -1227,6 +1312,12 @@ def check_regime(ctx: Ctx, case) -> bool:
             if isinstance(single, Exception):
                 ctx.fail(case, f"raises: {lt}.{op} raises on the single item `{names[k]}` but not on the batch")
                 return False
+            # pass 7 (38a): every corpus item is a finite valid operand (unit quaternions, scales 1e-9 .. 1e9, |log s| <= 20, translations
+            # <= 1e6); nothing in the documentation specifies a non-finite value for any of them — `_close` treats NaN == NaN, so a
+            # NaN produced by the batch and the single call alike must be refused here
+            if not bool(torch.isfinite(single).all()) and (lt, op, names[k]) not in NONFINITE_OK:
+                ctx.fail(dict(case, order=[k], shape=[1]), f"non-finite result: {lt}.{op} of the finite valid item `{names[k]}` = {C[k].tolist()} ({dtype}) is {single.flatten()[:6].tolist()}")
+                return False
             if not _close(rt[pos], single, dtype):
                 ctx.fail(case, f"itemwise: {lt}.{op} ({api}) on a batch mixing regimes {[names[j] for j in order]}: output item {pos} "
                                f"(`{names[k]}`) is {rt[pos].flatten()[:4].tolist()} but the same function on that item alone gives "
@@ -1263,6 +1354,10 @@ def check_regime2(ctx: Ctx, case) -> bool:
             if key not in _SINGLE:
                 _SINGLE[key] = _plain(site_call(site, case["api"], _lie(CX[i].clone(), spec["px"]),
                                                 wrap_second(site, case["ycase"], CY[j].clone()))).detach()
+            if not bool(torch.isfinite(_SINGLE[key]).all()) and (tag, nx[i], ny[j]) not in NONFINITE_OK:
+                ctx.fail(dict(case, ox=[i], oy=[j]), f"non-finite result: {tag} of the finite valid items `{nx[i]}` = {CX[i].tolist()} with `{ny[j]}` = {CY[j].tolist()} ({dtype}) "
+                                                      f"is {_SINGLE[key].flatten()[:6].tolist()}")
+                return False
             if not _close(r[pos], _SINGLE[key], dtype):
                 ctx.fail(case, f"itemwise: {tag} ({case['api']}) on a batch mixing regimes: output item {pos} (`{nx[i]}` with `{ny[j]}`) is "
                                f"{r[pos].flatten()[:4].tolist()} but the op on that pair alone gives {_SINGLE[key].flatten()[:4].tolist()}")
@@ -1288,7 +1383,7 @@ def stream_regime(ctx: Ctx):
             for k in range(nsp):
                 pairs2.append(([k, N - 1], (2,)))
                 pairs2.append(([N - 2, k], (2,)))
-            for _ in range(ctx.pick(3, 40)):
+            for _ in range(ctx.pick(1, 40)):
                 m = rng.randint(2, 6)
                 layouts.append(([rng.randrange(N) for _ in range(m)], (m,)))
             perm = list(range(N))
@@ -1298,15 +1393,19 @@ def stream_regime(ctx: Ctx):
                 # two-item batches (special, ordinary) in both orders: all of them (thorough) / every third, rotating with
                 # the op so that each special item is paired under every third op (quick; deterministic)
                 branchy = op in ("euler", "Jr", "Log", "Exp", "quat2unit")       # ops with per-item threshold branches: all pairs
-                if ctx.quick and dtype == "float32" and not branchy:
+                if ctx.quick and dtype == "float32" and op not in ("euler", "Jr", "Log", "Exp")[:(4 if (oi + ctx.seed) % 2 == 0 else 2)]:
                     continue
                 p2 = pairs2 if (not ctx.quick or branchy) else []
-                for order, shape in ((layouts + p2) if dtype == "float64" or not ctx.quick else layouts[:2]):
+                if ctx.quick:           # pass 7: the corpus grew by the exact ties — quick pairs every third special item, rotating with op and seed
+                    p2 = [pr for q_, pr in enumerate(p2) if (q_ // 2 + oi + ctx.seed) % 3 == 0]
+                lay = layouts if (branchy or not ctx.quick) else [layouts[0], layouts[2], layouts[-1]]      # quick, no per-item branch: full batch, 2 x N/2, a permutation
+                for order, shape in ((lay + p2) if dtype == "float64" or not ctx.quick else layouts[:2]):
                     case = {"kind": "regime", "lt": lt, "op": op, "api": rng.choice(sorted(apis)), "dtype": dtype,
                             "order": order, "shape": list(shape)}
                     check_regime(ctx, case)
                     ctx.note_case(("regime", lt, op, dtype, tuple(order), shape), True)
                     ctx.count(f"regime.{op}")
+    check_tie_neighbours(ctx)
     for site in SITE_KEYS:
         spec = SITES[site]
         for dtype in ("float64", "float32"):
@@ -1315,13 +1414,71 @@ def stream_regime(ctx: Ctx):
             n = min(nx, ny)
             shifts = [0, 3] + [rng.randrange(n) for _ in range(ctx.pick(1, 8))]
             if ctx.quick:       # quick: one fixed and one seeded pairing in float64, the other fixed pairing in float32
-                shifts = [0, shifts[2]] if dtype == "float64" else [3]
+                shifts = [[0], [shifts[2]]][(ctx.seed + SITE_KEYS.index(site)) % 2] if dtype == "float64" else ([3] if (ctx.seed + SITE_KEYS.index(site)) % 4 == 0 else [])
             for sh in shifts:
                 case = {"kind": "regime2", "site": list(site), "api": rng.choice(sorted(spec["apis"])), "ycase": rng.choice(["lie", "plain"]),
                         "dtype": dtype, "ox": list(range(n)), "oy": [(k + sh) % n for k in range(n)]}
                 check_regime2(ctx, case)
                 ctx.note_case(("regime2", site, dtype, sh), True)
                 ctx.count(f"regime2.{site[1]}")
+
+
+def check_tie_neighbours(ctx: Ctx):
+    """pass 7 (38c): at an exact tie of a branch selection SOME branch must be selected — a result that is left zero / uninitialised /
+    NaN only there is the same for the batch and for the single item, so the item-wise oracle cannot see it.  Every op here is
+    continuous across its thresholds (the branches are a closed form and its series), so the value AT the tie must agree with the
+    values one ulp to either side of it (tied components moved to the next float up / down in magnitude) within 1e-3 relative, element by element.
+    Excluded: euler's lock band, where roll / yaw are DEFINED differently on the two sides (documented convention)."""
+    for lt in LTYPES:
+        for dtype in ("float64", "float32"):
+            names, C = regime_corpus(lt, dtype)
+            dt = DT[dtype]
+            e = torch.finfo(dt).eps
+            marks = torch.tensor([e, 2 * e, e / 2, float(torch.tensor(0.05, dtype=dt))], dtype=dt)
+            for k, nm in enumerate(names):
+                if not nm.startswith("tie-") or "euler" in nm or nm.startswith(("tie-quarter", "tie-half", "tie-equal", "tie-angle")):
+                    continue
+                if ctx.quick and dtype == "float32" and (k + ctx.seed) % 2:          # quick: every tie in float64, every second one in float32
+                    continue
+                x = C[k]
+                tied = (x.abs().unsqueeze(-1) == marks).any(-1)
+                if not bool(tied.any()):
+                    continue
+                up = torch.where(tied, torch.nextafter(x, x.sign() * float("inf")), x)
+                dn = torch.where(tied, torch.nextafter(x, torch.zeros_like(x)), x)
+                with warnings.catch_warnings():
+                    warnings.simplefilter("ignore")
+                    # quick: the ops that contain (or directly call) a thresholded branch; thorough: every op
+                    calls = [(f"{lt}.{op}", (lambda fn: lambda v: _plain(fn(_lie(v.clone(), lt))))(apis[sorted(apis)[0]])) for op, apis, _ in unary_ops(lt)
+                             if op != "euler" and (not ctx.quick or op in ("Log", "Exp", "Jr", "translation"))]
+                    for sk in SITE_KEYS:
+                        if sk[0] != lt or (ctx.quick and sk[1] not in ("jinvp", "retr")):
+                            continue
+                        spec = SITES[sk]
+                        y = POOLS.get(spec["py"], dtype)[1]
+                        calls.append((f"{sk[0]}.{sk[1]}", (lambda sk, spec, y: lambda v: _plain(site_call(sk, sorted(spec["apis"])[0], _lie(v.clone(), spec["px"]),
+                                                                                                           wrap_second(sk, "lie", y.clone()))))(sk, spec, y)))
+                    for label, f in calls:
+                        case = {"kind": "tie", "lt": lt, "dtype": dtype, "item": nm, "op": label}
+                        ctx.note_case(("tie", lt, dtype, nm, label), True)
+                        ctx.count("regime.tie")
+                        try:
+                            v0, v1, v2 = f(x).detach().double(), f(up).detach().double(), f(dn).detach().double()
+                        except Exception as ex:
+                            ctx.fail(case, f"raises: {label} raises at the exact tie `{nm}` = {x.tolist()} ({dtype}) or one ulp beside it: {type(ex).__name__}: {str(ex)[:80]}")
+                            continue
+                        if not bool(torch.isfinite(v0).all()):
+                            ctx.fail(case, f"non-finite result: {label} at the exact tie `{nm}` = {x.tolist()} ({dtype}) is {v0.flatten()[:6].tolist()}")
+                            continue
+                        # the value at the tie lies between its two neighbours, element by element; slack: 1e-3 relative to the neighbours (the
+                        # interesting quantities at theta == eps are themselves O(eps)), their own distance, and rounding noise 4 eps of
+                        # the largest entry (cancelling entries of an O(1) matrix are 0 on one side and 1e-16 on the other)
+                        lo, hi = torch.minimum(v1, v2), torch.maximum(v1, v2)
+                        slack = 1e-3 * torch.maximum(v1.abs(), v2.abs()) + (v1 - v2).abs() + 4 * float(e) * float(v1.abs().max())
+                        if not bool(((v0 >= lo - slack) & (v0 <= hi + slack)).all()):
+                            ctx.fail(case, f"tie: {label} at the exact tie `{nm}` = {x.tolist()} ({dtype}) is {v0.flatten()[:6].tolist()} but one ulp above the threshold "
+                                           f"it is {v1.flatten()[:6].tolist()} and one ulp below {v2.flatten()[:6].tolist()} — no branch (or a wrong one) is selected exactly "
+                                           f"at the threshold")
 
 
 # ============================================================================= __torch_function__ wrapping
@@ -1827,7 +1984,7 @@ def stream_retain(ctx: Ctx):
             Jt = J[0] if fname == "aux" else J
             # reference: torch.func.jacrev of the same action written on plain tensors through the public API
             ref = torch.func.jacrev(lambda t: _plain(P.LieTensor(t, ltype=ltype_of(lt)).Act(pts)))(pose.tensor())
-            if Jt.shape != ref.shape or not bool(((Jt - ref).abs() <= 1e-9 * (1 + ref.abs().max())).all()):
+            if Jt.shape != ref.shape or not bool(torch.isfinite(Jt).all()) or not bool(((Jt - ref).abs() <= 1e-9 * (1 + ref.abs().max())).all()):
                 ctx.fail(case, f"jacrev: pp.func.jacrev of the {lt} action differs from torch.func.jacrev on the plain tensor")
 
 
@@ -2057,7 +2214,7 @@ def stream_reuse(ctx: Ctx):
                             nm = call[1] if call[0] == "u" else f"{call[1][1]} (partner lshape {call[2]})"
                             ctx.fail(case, f"raises: {lt}.{nm} on a re-used {holder} operand raises {type(e).__name__}: {str(e)[:80]}")
                             continue
-                        if a.shape != b.shape or a.dtype != b.dtype or not torch.equal(torch.nan_to_num(_plain(a)), torch.nan_to_num(_plain(b))):
+                        if a.shape != b.shape or a.dtype != b.dtype or not same_values(_plain(a), _plain(b)):
                             ctx.fail(case, f"reuse: {lt}.{label} on a {holder} object that was already used in {ci} calls differs from the "
                                            f"same call on a fresh object ({dtype})")
                             break
@@ -2151,10 +2308,10 @@ def stream_alias(ctx: Ctx):
                     border = torch.cat([buf[0].flatten(), buf[-1].flatten(), buf[:, 0].flatten(), buf[:, -1].flatten()])
                     if not bool((border == 9.0).all()):
                         ctx.fail(case, f"alias: in-place {g}.{label} on a view into a larger buffer wrote outside the view")
-                    if not torch.equal(torch.nan_to_num(buf[1:-1, 1:-1]), torch.nan_to_num(C.tensor())):
+                    if not same_values(buf[1:-1, 1:-1], C.tensor()):
                         ctx.fail(case, f"alias: in-place {g}.{label} on a view did not update the underlying storage (the buffer the "
                                        f"caller holds does not contain the result)")
-                    if not torch.equal(torch.nan_to_num(V.tensor()), torch.nan_to_num(C.tensor())):
+                    if not same_values(V.tensor(), C.tensor()):
                         ctx.fail(case, f"alias: in-place {g}.{label} on a non-contiguous view gives another result than on a contiguous clone ({dtype})")
                     if not torch.equal(Yo.tensor(), y0) or not torch.equal(abase, a0):
                         ctx.fail(case, f"mutation: in-place {g}.{label} changed an argument other than `self`")
@@ -2177,7 +2334,7 @@ def snapshot_globals():
 PASS2 = ["argcombo", "errors", "gradmode", "duck", "copies", "ownership", "interleave"]
 PASS3 = ["static", "torchb", "sig", "effects", "dispatch"]
 PASS4 = ["defaults", "modeorder", "subclass", "large"]
-PASS5 = ["poison", "dtypes", "shared_defaults", "callbacks", "propsubclass"]
+PASS5 = ["poison", "dtypes", "shared_defaults", "callbacks", "propsubclass", "convties", "views"]
 
 
 def guarded(ctx: Ctx, name, fn):
@@ -2199,21 +2356,24 @@ def guarded(ctx: Ctx, name, fn):
 
 
 def run(ctx: Ctx):
-    """the streams (`_run`); a rehearsal on a scratch copy (PYPOSE_REPO set to something else than /repo) puts the tracked
-    generated tables back afterwards — the obligations over the regenerated tables have been re-checked by stream `static` by
+    """the streams (`_run`); a rehearsal on a scratch copy (PYPOSE_REPO set to something else than /repo) regenerates the tracked
+    generated tables from /repo afterwards — the obligations over the regenerated tables have been re-checked by stream `static` by
     then, and the next run on the real tree must not start from the tables of a mutated one"""
-    gen_dir = extract.GEN_GLOBALS.parent
-    before = {f: f.read_bytes() for f in sorted(gen_dir.glob("*.lean"))}
     try:
         _run(ctx)
     finally:
-        if os.environ.get("PYPOSE_REPO", "/repo").rstrip("/") != "/repo":
-            back = [f.name for f, b in before.items() if f.read_bytes() != b]
-            for f, b in before.items():
-                if f.read_bytes() != b:
-                    f.write_bytes(b)
+        if os.environ.get("PYPOSE_REPO", "/repo").rstrip("/") != "/repo" and os.path.isdir("/repo/pypose"):
+            # not "the content at the start of this run": two rehearsals running at the same time would hand each other the tables of
+            # a mutated tree — regenerate from the reference tree instead
+            saved = os.environ["PYPOSE_REPO"]
+            os.environ["PYPOSE_REPO"] = "/repo"
+            try:
+                _, ch = extract.regenerate()
+                back = (["Handled.lean"] if ch else []) + extract.regenerate_all()["changed"]
+            finally:
+                os.environ["PYPOSE_REPO"] = saved
             if back:
-                ctx.notes.append(f"scratch rehearsal: generated tables {back} put back to their content at the start of the run")
+                ctx.notes.append(f"scratch rehearsal: generated tables {back} regenerated from /repo at the end of the run")
 
 
 def _run(ctx: Ctx):
@@ -2249,6 +2409,8 @@ def _run(ctx: Ctx):
     guarded(ctx, "shared_defaults", lambda: B5.stream_shared_defaults(ctx))
     guarded(ctx, "callbacks", lambda: B5.stream_callbacks(ctx))
     guarded(ctx, "propsubclass", lambda: B5.stream_propsubclass(ctx))
+    guarded(ctx, "convties", lambda: B5.stream_convties(ctx))
+    guarded(ctx, "views", lambda: B5.stream_views(ctx))
     from . import util_c06b as B2
     for nm2 in PASS2:
         guarded(ctx, nm2, (lambda f: lambda: f(ctx))(getattr(B2, "stream_" + nm2)))
@@ -2318,7 +2480,7 @@ def replay(ctx: Ctx, case) -> bool:
         from . import util_c06d as B4
         torch.set_num_threads(1)
         getattr(B4, "stream_" + kind)(ctx)
-    elif kind in ("poison", "dtypes", "shared_defaults", "callbacks", "propsubclass"):
+    elif kind in PASS5:
         from . import util_c06e as B5
         torch.set_num_threads(1)
         getattr(B5, "stream_" + kind)(ctx)
@@ -2341,6 +2503,8 @@ def replay(ctx: Ctx, case) -> bool:
          **{n4: (lambda n4=n4: getattr(__import__("harness.util_c06d", fromlist=["x"]), "stream_" + n4)(ctx)) for n4 in PASS4},
          **{n5: (lambda n5=n5: getattr(__import__("harness.util_c06e", fromlist=["x"]), "stream_" + n5)(ctx)) for n5 in PASS5},
          "poison-final": lambda: __import__("harness.util_c06e", fromlist=["x"]).stream_poison(ctx)}[which]()
+    elif kind == "tie":
+        check_tie_neighbours(ctx)
     elif kind == "regime":
         check_regime(ctx, c)
     elif kind == "regime2":
